@@ -1,9 +1,46 @@
 import Slock.Proofs.Engine2QITick
-import Slock.Proofs.EngineNotLate
 /-! Stage-2 engine: the sweeps on a state in which nothing is held or queued any more. Every wheel entry is a tombstone: visiting it
 drops it (`refCount--`, the record is freed at 0, the key record unlinked with its last record); nothing is re-armed, nothing fires. -/
 namespace Slock.Engine2
-open Slock.Engine (mem_sortBySeq_iff)
+open Slock.Engine (insertBySeq sortBySeq)
+
+theorem mem_insertBySeq {α} (seqOf : α → Nat) (x y : α) (acc : List α) : x ∈ insertBySeq seqOf y acc ↔ x = y ∨ x ∈ acc := by
+  induction acc with
+  | nil => simp [insertBySeq]
+  | cons z zs ih =>
+    unfold insertBySeq
+    split
+    · simp
+    · simp only [List.mem_cons, ih]
+      constructor
+      · rintro (h | h | h)
+        · exact Or.inr (Or.inl h)
+        · exact Or.inl h
+        · exact Or.inr (Or.inr h)
+      · rintro (h | h | h)
+        · exact Or.inr (Or.inl h)
+        · exact Or.inl h
+        · exact Or.inr (Or.inr h)
+
+theorem mem_sortBySeq_iff {α} (seqOf : α → Nat) (l : List α) (x : α) : x ∈ sortBySeq seqOf l ↔ x ∈ l := by
+  unfold sortBySeq
+  have gen : ∀ (l acc : List α), x ∈ l.foldl (fun acc y => insertBySeq seqOf y acc) acc ↔ x ∈ l ∨ x ∈ acc := by
+    intro l
+    induction l with
+    | nil => intro acc; simp
+    | cons y ys ih =>
+      intro acc
+      simp only [List.foldl_cons, ih, mem_insertBySeq, List.mem_cons]
+      constructor
+      · rintro (h | h | h)
+        · exact Or.inl (Or.inr h)
+        · exact Or.inl (Or.inl h)
+        · exact Or.inr h
+      · rintro ((h | h) | h)
+        · exact Or.inr (Or.inl h)
+        · exact Or.inl h
+        · exact Or.inr (Or.inr h)
+  rw [gen]; simp
 
 /-- nothing is held or queued: no lock record is a hold (depth > 0) or a waiting request (`timeouted = false`) -/
 def Dead (db : DB) : Prop := ∀ k ∈ db.keys, ∀ r ∈ k.recs, r.depth = 0 ∧ r.timeouted = true
